@@ -446,12 +446,12 @@ theorem Budget.le_trans {a b c : Budget} (h1 : a.le b) (h2 : b.le c) : a.le c :=
    optLe_trans h1.redirect h2.redirect, optLe_trans h1.status h2.status, optLe_trans h1.other h2.other⟩
 
 theorem bump_le (b : Budget) (c : Cause) : (b.bump c).le b := by
-  cases c <;> exact ⟨by simp [Budget.bump, dec_le, optLe_refl], by simp [Budget.bump, dec_le, optLe_refl],
+  cases c <;> exact ⟨by simp [Budget.bump, dec_le], by simp [Budget.bump, dec_le, optLe_refl],
     by simp [Budget.bump, dec_le, optLe_refl], by simp [Budget.bump, dec_le, optLe_refl],
     by simp [Budget.bump, dec_le, optLe_refl], by simp [Budget.bump, dec_le, optLe_refl]⟩
 
 theorem bump_mono {b b' : Budget} (h : b.le b') (c : Cause) : (b.bump c).le (b'.bump c) := by
-  cases c <;> exact ⟨by simp [Budget.bump, optLe_dec h.total, h.total], by simp [Budget.bump, optLe_dec h.connect, h.connect],
+  cases c <;> exact ⟨by simp [Budget.bump, optLe_dec h.total], by simp [Budget.bump, optLe_dec h.connect, h.connect],
     by simp [Budget.bump, optLe_dec h.read, h.read], by simp [Budget.bump, optLe_dec h.redirect, h.redirect],
     by simp [Budget.bump, optLe_dec h.status, h.status], by simp [Budget.bump, optLe_dec h.other, h.other]⟩
 
